@@ -214,6 +214,22 @@ Qed.
 Lemma exec_disabled user db ast : execute_plugins None user db ast = PAllow.
 Proof. reflexivity. Qed.
 
+Lemma pool_section_wins g pc : effective_plugins g (Some pc) = Some pc.
+Proof. reflexivity. Qed.
+
+Lemma pool_inherits g : effective_plugins g None = g.
+Proof. reflexivity. Qed.
+
+(** a pool whose own section switches both plugins off is not filtered by the global one *)
+Lemma pool_disabled_allows g pc user db ast :
+  ta_present pc && ta_enabled pc = false -> ic_present pc && ic_enabled pc = false ->
+  execute_plugins (effective_plugins g (Some pc)) user db ast = PAllow.
+Proof.
+  intros Ht Hi. cbn [effective_plugins]. unfold execute_plugins, intercept_run, ta_verdict.
+  destruct (ic_present pc); cbn [andb] in Hi; [rewrite Hi; cbn [negb]|];
+    (destruct (ta_present pc); cbn [andb] in Ht; [rewrite Ht; reflexivity|reflexivity]).
+Qed.
+
 (* ------------------------------------------------------------------------- *)
 (** * 2. the intercept reply is readable and says what the rule says           *)
 
